@@ -404,16 +404,21 @@ func (m pathmap) str(prefix, indent, curindent string) string {
 }
 
 func (m pathmap) add(path []string, v interface{}) {
+	if len(path) == 0 {
+		// A value at the root has no name to be displayed under.
+		return
+	}
 	if len(path) == 1 {
 		m[path[0]] = v
 		return
 	}
 
-	mm, ok := m[path[0]]
+	// A leaf that turns out to have children is replaced by a branch.
+	mm, ok := m[path[0]].(pathmap)
 	if !ok {
 		mm = make(pathmap)
 	}
-	mm.(pathmap).add(path[1:], v)
+	mm.add(path[1:], v)
 	m[path[0]] = mm
 }
 
